@@ -354,7 +354,8 @@ impl Display for Number {
 
 impl Number {
     pub fn value(&self) -> i64 {
-        match self.data.as_str() {
+        // The parser accepts these keywords in any letter case
+        match self.data.to_lowercase().as_str() {
             "true" => 1,
             "false" => 0,
             _ => i64::from_str_radix(&self.data, self.radix).ok().unwrap(),
